@@ -1149,7 +1149,7 @@ fn main() {
         let n_graphs = arg_u64("--models", if thorough { 1000 } else { 60 }) as usize;
         let actor_specs: Vec<String> = {
             let mut v = Vec::new();
-            for max in [0, 1] {
+            for max in [1, 2] {
                 for net in ["ordered", "nondup", "dup"] {
                     for lossy in ["n", "y"] {
                         for timer in ["n", "y"] {
